@@ -81,7 +81,7 @@ def at_end(world, beh):
     with gin.config_scope(list(c['scope'])):
       world.call(c['sel'], c['pargs'], c['ckw'])
     again = world.call_log[-1]
-    if c['status'] == 'ok' and (again['status'] != 'ok' or again['evals'] != c['evals']):
+    if c['status'] == 'ok' and (again['status'] != 'ok' or sorted(again['evals']) != sorted(c['evals'])):
       return dict(step=len(beh), action='replayed call', clause='replay.same-arguments', call=[c['sel'], c['pargs'], c['ckw'], c['scope']],
                   expected=c['evals'], got=[again['status']] + again['evals'], text=text)
   text2 = gin.operative_config_str()
